@@ -32,6 +32,7 @@ pub struct Core {
     pub nacq: u64,
     pub down: bool,
     pub proj: bool,
+    pub restarts: u64,
 }
 
 pub async fn base_config() -> Config {
@@ -60,6 +61,7 @@ impl Core {
             nacq: 0,
             down: false,
             proj,
+            restarts: 0,
         }
     }
 
@@ -325,6 +327,37 @@ impl Core {
                     Err(e) => Self::err(e),
                 }
             }
+            "restart" => {
+                // flush with the JSON backend, optionally re-lay the files out the way the two
+                // earlier schemas did, load into a fresh instance
+                let layout = s(r, "layout");
+                let dir = std::env::var("WBVERIF_SCRATCH").map(std::path::PathBuf::from).unwrap_or_else(|_| std::env::temp_dir()).join(format!("wbverif_restart_{}_{}", std::process::id(), self.nacq + 1_000_000 * (self.restarts + 1)));
+                self.restarts += 1;
+                let _ = std::fs::remove_dir_all(&dir);
+                std::fs::create_dir_all(&dir).expect("mkdir");
+                let mut cfg = base_config().await;
+                cfg.use_persistence = true;
+                cfg.persistence_mode = worterbuch::PersistenceMode::Json;
+                cfg.data_dir = dir.to_string_lossy().to_string();
+                worterbuch::verif::unlock_persistence();
+                let rep = match worterbuch::verif::json_flush(&mut self.wb, &cfg).await {
+                    Err(e) => json!({"t": "err", "code": 3, "detail": e}),
+                    Ok(()) => {
+                        relayout(&dir, &layout, b(r, "toggle"));
+                        match worterbuch::verif::json_load(&cfg).await {
+                            Ok(wb) => {
+                                self.wb = wb;
+                                self.subs.clear();
+                                self.ls.clear();
+                                json!({"t": "ok"})
+                            }
+                            Err(e) => json!({"t": "err", "code": 3, "detail": e}),
+                        }
+                    }
+                };
+                let _ = std::fs::remove_dir_all(&dir);
+                rep
+            }
             other => json!({"t": "unknown", "op": other}),
         }
     }
@@ -451,6 +484,62 @@ impl Core {
             }
         }
         rec
+    }
+}
+
+/// rewrite a freshly flushed v3 directory into the layout of the earlier persistence schemas
+/// (only loaders for them exist in the tree): v2 = hidden files without checksums sharing the
+/// `.toggle`; v1 = one `.store.json` with a `.store.sha` (no registrations file).
+fn relayout(dir: &std::path::Path, layout: &str, other_toggle: bool) {
+    use sha2::{Digest, Sha256};
+    let toggle = dir.join(".toggle");
+    let slot = if toggle.exists() { "a" } else { "b" };
+    let store = dir.join(format!("store.{slot}.json"));
+    let gglw = dir.join(format!("gglw.{slot}.json"));
+    match layout {
+        "v2" => {
+            // optionally move the snapshot to the other slot, to cover both toggle states
+            let target = if other_toggle { if slot == "a" { "b" } else { "a" } } else { slot };
+            let _ = std::fs::rename(&store, dir.join(format!(".store.{target}.json")));
+            let _ = std::fs::rename(&gglw, dir.join(format!(".gglw.{target}.json")));
+            if target == "a" {
+                let _ = std::fs::File::create(&toggle);
+            } else {
+                let _ = std::fs::remove_file(&toggle);
+            }
+            for f in ["store.a.json.sha256", "store.b.json.sha256", "gglw.a.json.sha256", "gglw.b.json.sha256"] {
+                let _ = std::fs::remove_file(dir.join(f));
+            }
+        }
+        "v1" => {
+            if let Ok(json) = std::fs::read_to_string(&store) {
+                let mut h = Sha256::new();
+                h.update(&json);
+                let sum = hex::encode(h.finalize());
+                let _ = std::fs::write(dir.join(".store.json"), json);
+                let _ = std::fs::write(dir.join(".store.sha"), sum);
+            }
+            for f in std::fs::read_dir(dir).into_iter().flatten().flatten() {
+                let n = f.file_name().to_string_lossy().to_string();
+                if n != ".store.json" && n != ".store.sha" {
+                    let _ = std::fs::remove_file(f.path());
+                }
+            }
+        }
+        _ => {
+            if other_toggle {
+                // same snapshot in the other slot
+                let target = if slot == "a" { "b" } else { "a" };
+                for (f, t) in [("store", "json"), ("store", "json.sha256"), ("gglw", "json"), ("gglw", "json.sha256")] {
+                    let _ = std::fs::rename(dir.join(format!("{f}.{slot}.{t}")), dir.join(format!("{f}.{target}.{t}")));
+                }
+                if target == "a" {
+                    let _ = std::fs::File::create(&toggle);
+                } else {
+                    let _ = std::fs::remove_file(&toggle);
+                }
+            }
+        }
     }
 }
 
